@@ -322,4 +322,65 @@ theorem uniqueTags_code_eq_model (xs : List Nat) :
   have hc := construct_run 9 (by omega) (by omega) xs
   py_straight [aliasOK, Expr.makesNew, Val.mutable, assocSet, hf1, hf2, hc, uniqueTags]
 
+/-! ### non-vacuity: concrete runs of the dump through the interpreter (kernel evaluation), off the trivial paths -/
+
+-- A failing `decide +kernel` explains itself by re-evaluating the proposition with the elaborator, which is very slow on
+-- runs of the interpreter (minutes, gigabytes): the small budget makes a broken example fail at once.  The kernel check of
+-- a correct example does not consume it.
+set_option maxHeartbeats 2000
+
+private def c12 : Coll := ⟨[1, 2], [1, 2]⟩
+
+/-- `__iadd__`: operands already present and repeated operands are skipped, order of first occurrence -/
+example : runMeth (tcCx 4) TagCollection_iadd_ast (ofColl c12) [operands [2, 3, 3, 1, 4]]
+    = (some (ofColl ⟨[1, 2, 3, 4], [1, 2, 3, 4]⟩), .ok (.obj (ofColl ⟨[1, 2, 3, 4], [1, 2, 3, 4]⟩))) := by decide +kernel
+/-- the theorems hold off the invariant too: a state whose set lacks a uid of the list (`2` is appended again) -/
+example : runMeth (tcCx 4) TagCollection_iadd_ast (ofColl ⟨[1, 2], [1]⟩) [operands [2]]
+    = (some (ofColl ⟨[1, 2, 2], [1, 2]⟩), .ok (.obj (ofColl ⟨[1, 2, 2], [1, 2]⟩)))
+    ∧ Coll.iadd ⟨[1, 2], [1]⟩ [2] = ⟨[1, 2, 2], [1, 2]⟩ := by decide +kernel
+/-- `__isub__`: present operands leave, absent and repeated ones are skipped -/
+example : runMeth (tcCx 5) TagCollection_isub_ast (ofColl ⟨[1, 2, 3], [1, 2, 3]⟩) [operands [3, 5, 1, 3]]
+    = (some (ofColl ⟨[2], [2]⟩), .ok (.obj (ofColl ⟨[2], [2]⟩)))
+    ∧ Coll.isub ⟨[1, 2, 3], [1, 2, 3]⟩ [3, 5, 1, 3] = some ⟨[2], [2]⟩ := by decide +kernel
+/-- `__isub__` raising: the uid is in the set, the element is not in the list — `ValueError` from `list.remove`, after the
+operands before it were removed; the hand model says `none` -/
+example : runMeth (tcCx 5) TagCollection_isub_ast (ofColl ⟨[2, 3], [1, 2, 3]⟩) [operands [3, 1, 2]]
+    = (some (ofColl ⟨[2], [1, 2]⟩), .error .valueError)
+    ∧ Coll.isub ⟨[2, 3], [1, 2, 3]⟩ [3, 1, 2] = none := by decide +kernel
+/-- `remove` raising `KeyError`: the element is in the list, its uid is not in the set; the list has lost it -/
+example : runMeth (tcCx 2) TagCollection_remove_ast (ofColl ⟨[1, 2], [2]⟩) [.py (elemV 1)]
+    = (some (ofColl ⟨[2], [2]⟩), .error .keyError) ∧ Coll.remove ⟨[1, 2], [2]⟩ 1 = none := by decide +kernel
+/-- `remove` takes the FIRST equal element of the list -/
+example : runMeth (tcCx 2) TagCollection_remove_ast (ofColl ⟨[1, 2, 1], [1, 2]⟩) [.py (elemV 1)]
+    = (some (ofColl ⟨[2, 1], [2]⟩), .ok (.py .none)) := by decide +kernel
+/-- `__init__` with values: de-duplicated -/
+example : runMeth (tcCx 6) TagCollection_init_ast [] [operands [3, 1, 3, 2, 1]]
+    = (some (ofColl ⟨[3, 1, 2], [3, 1, 2]⟩), .ok (.py .none)) := by decide +kernel
+/-- `__add__`: the receiver is unchanged, the result is a new object built from a copy of the list (so a duplicate in the
+receiver's list is dropped by the constructor) -/
+example : runMeth (tcCx 7) TagCollection_add_ast (ofColl ⟨[1, 1, 2], [1, 2]⟩) [operands [2, 3]]
+    = (some (ofColl ⟨[1, 1, 2], [1, 2]⟩), .ok (.obj (ofColl ⟨[1, 2, 3], [1, 2, 3]⟩))) := by decide +kernel
+/-- `__sub__` -/
+example : runMeth (tcCx 8) TagCollection_sub_ast (ofColl ⟨[1, 2, 3], [1, 2, 3]⟩) [operands [2, 9]]
+    = (some (ofColl ⟨[1, 2, 3], [1, 2, 3]⟩), .ok (.obj (ofColl ⟨[1, 3], [1, 3]⟩))) := by decide +kernel
+/-- `__sub__` consults the uid set of the COPY (repair 378a6a9): an operand whose uid is only in the receiver's stale set is
+skipped, not removed from a list that does not have it -/
+example : runMeth (tcCx 8) TagCollection_sub_ast (ofColl ⟨[1], [1, 2]⟩) [operands [2]]
+    = (some (ofColl ⟨[1], [1, 2]⟩), .ok (.obj (ofColl ⟨[1], [1]⟩))) := by decide +kernel
+/-- `uniqueTags` -/
+example : run (tcCx 9) uniqueTags_ast [operands [3, 1, 3, 2, 1]] = .ok (.obj (ofColl ⟨[3, 1, 2], [3, 1, 2]⟩)) := by
+  decide +kernel
+/-- `all` -/
+example : runMeth (tcCx 3) TagCollection_all_ast (ofColl c12) [] = (some (ofColl c12), .ok (operands [1, 2])) := by
+  decide +kernel
+/-- an operand that cannot be iterated over: `TypeError` -/
+example : (runMeth (tcCx 4) TagCollection_iadd_ast (ofColl c12) [.py (.int 3)]).2 = .error .typeError := by decide +kernel
+/-- the method table fails closed: without `append` in it (`tcCx 1`), `self.append(other)` is an `AttributeError`, never a value;
+with nothing in it (`tcCx 0`) already `self._hasTag` is -/
+example : (runMeth (tcCx 1) TagCollection_iadd_ast (ofColl c12) [operands [3]]).2 = .error (.other "AttributeError")
+    ∧ (runMeth (tcCx 0) TagCollection_iadd_ast (ofColl c12) [operands [3]]).2 = .error (.other "AttributeError") := by
+  decide +kernel
+/-- a constructor of another class is a `NameError` -/
+example : construct (tcCx 9) "TagCollection2" [] = .error (.other "NameError") := by decide +kernel
+
 end AHP.C18Code
